@@ -1279,7 +1279,114 @@ fn part_c(ctx: &Ctx) -> u64 {
     n
 }
 
+//
+// Part D: (1) json() decodes with the same charset rule as text() - also when the configured
+// default happens to be Windows-1252, the value of the built-in fallback; (2) what the *request*
+// says about its own body (a Content-Type with a charset, as text()/json() bodies add it) has no
+// bearing on how the response is decoded.
+//
+fn part_d(ctx: &Ctx) -> u64 {
+    use encoding_rs::*;
+    let mut n = 0u64;
+    // (1) json
+    let texts: [(Enc, &str); 4] = [(WINDOWS_1252, "caf\u{e9} \u{20ac}5"), (SHIFT_JIS, "\u{30c6}\u{30b9}\u{30c8}"), (KOI8_R, "\u{41f}\u{440}\u{438}\u{432}\u{435}\u{442}"), (UTF_8, "na\u{ef}ve \u{20ac}")];
+    for (enc, text) in texts {
+        let mut body = vec![b'"'];
+        body.extend_from_slice(&enc.encode(text).0);
+        body.push(b'"');
+        // how the charset is made known: 0 header label, 1 session default, 2 request default, 3 nothing (only for windows-1252)
+        for how in 0..4u8 {
+            if how == 3 && enc != WINDOWS_1252 {
+                continue;
+            }
+            for media in ["application/json", "text/plain"] {
+                n += 1;
+                let ct = if how == 0 { format!("{media}; charset={}", enc.name()) } else { media.to_string() };
+                let mut w = format!("HTTP/1.1 200 OK\r\nContent-Type: {ct}\r\nContent-Length: {}\r\n\r\n", body.len()).into_bytes();
+                w.extend_from_slice(&body);
+                let _world = World::single(Script::plain(w), false);
+                let res = guarded(|| {
+                    let mut s = attohttpc::Session::new();
+                    if how == 1 {
+                        s.default_charset(Some(enc));
+                    }
+                    let mut rb = s.get(URL);
+                    if how == 2 {
+                        rb = rb.default_charset(Some(enc));
+                    }
+                    rb.send().and_then(|r| r.json::<String>())
+                });
+                let ok = matches!(&res, Ok(Ok(t)) if t == text);
+                if !ok {
+                    ctx.violation(
+                        "C18:wrong-decoding:json",
+                        format!(
+                            "json() on a {media} response, charset {} made known by {}: got {}, expected {text:?}",
+                            enc.name(),
+                            ["the header label", "the session default", "the request default", "nothing (built-in Windows-1252)"][how as usize],
+                            format!("{res:?}").chars().take(120).collect::<String>()
+                        ),
+                        json!({"engine": "c18", "part_d": true}),
+                        n,
+                    );
+                }
+            }
+        }
+    }
+    // (2) the request's own Content-Type
+    let body: &[u8] = b"caf\xe9 \x80 5";
+    let want = WINDOWS_1252.decode_without_bom_handling(body).0.into_owned();
+    for req_kind in 0..5u8 {
+        for resp_ct in ["", "Content-Type: text/plain\r\n", "Content-Type: text/plain; charset=klingon\r\n"] {
+            for entry in 0..2u8 {
+                n += 1;
+                let mut w = format!("HTTP/1.1 200 OK\r\n{resp_ct}Content-Length: {}\r\n\r\n", body.len()).into_bytes();
+                w.extend_from_slice(body);
+                let _world = World::single(Script::plain(w), false);
+                let res = guarded(|| -> Result<String, String> {
+                    let mut s = attohttpc::Session::new();
+                    if req_kind == 4 {
+                        s.header("Content-Type", "text/plain; charset=shift_jis");
+                    }
+                    let resp = match req_kind {
+                        0 => s.get(URL).send(),
+                        1 => s.post(URL).text("caf\u{e9}").send(),
+                        2 => s.post(URL).json(&serde_json::json!({"k": "v"})).map_err(|e| e.to_string())?.send(),
+                        3 => s.get(URL).header("Content-Type", "text/plain; charset=koi8-r").send(),
+                        _ => s.get(URL).send(),
+                    }
+                    .map_err(|e| e.to_string())?;
+                    if entry == 0 {
+                        resp.text().map_err(|e| e.to_string())
+                    } else {
+                        let mut out = String::new();
+                        resp.text_reader().read_to_string(&mut out).map_err(|e| e.to_string())?;
+                        Ok(out)
+                    }
+                });
+                if !matches!(&res, Ok(Ok(t)) if *t == want) {
+                    ctx.violation(
+                        "C18:wrong-decoding:request-content-type",
+                        format!(
+                            "request {} ; response {:?}, no default charset configured: {} gave {}, expected the Windows-1252 reading {want:?}",
+                            ["GET", "POST with a text() body", "POST with a json() body", "GET with Content-Type: text/plain; charset=koi8-r", "GET from a session whose headers say charset=shift_jis"][req_kind as usize],
+                            resp_ct.trim_end(),
+                            if entry == 0 { "text()" } else { "text_reader()" },
+                            format!("{res:?}").chars().take(120).collect::<String>()
+                        ),
+                        json!({"engine": "c18", "part_d": true}),
+                        n,
+                    );
+                }
+            }
+        }
+    }
+    n
+}
+
 pub fn c18(ctx: &Ctx) -> Report {
+    let d_evals = part_d(ctx);
+    ctx.count("D_executions", d_evals);
     let probe = probe_body();
     let (n_labels, distinct, same) = self_check(&probe);
     let t = std::time::Instant::now();
@@ -1330,7 +1437,7 @@ pub fn c18(ctx: &Ctx) -> Report {
     rep.set("exhaustive", true);
     rep.set(
         "rule",
-        "Part A: full product of Content-Type value (absent, bare media type, 9 unknown labels, every WHATWG label in lower/UPPER/MiXeD spelling; each with and without the blank after ';') x 7 default-charset settings (none, session, request, both) x entry points (text, text_reader, text_utf8, text_with(X), text_reader_with(X)) [x transport policy in the thorough tier] on one probe body that separates all decoders; a case is non-trivial when some charset a wrong implementation could pick instead (the header's, either default, windows-1252, UTF-8) decodes the probe differently from every accepted output. Part B: every byte string up to the length bound over the 13-byte alphabet (and each of the 3 BOMs followed by every shorter string) x 12 charsets x every subset of inner body offsets as transport read boundaries x {caller buffer 1, 2, 3, 8192, read_to_string}; plus padded bodies around the 8 KiB buffer boundaries; non-trivial when decoding is not the identity on the body (or the body starts with the charset's own BOM). Part C: 5 multi-byte texts in 5 charsets x transport read size {whole, 1, 3} x {text, text_with, text_reader with caller buffers 1/5/8192, text_reader_with} x every body offset at which one transport read first fails with Interrupted (all entry points) or WouldBlock/TimedOut (streaming reader, the caller reads again; offsets >= 3, past the decoder's byte-order-mark look-ahead): same string as without the fault. Cases are distinct by construction (products of duplicate-free lists; label spellings are de-duplicated).",
+        "Part A: full product of Content-Type value (absent, bare media type, 9 unknown labels, every WHATWG label in lower/UPPER/MiXeD spelling; each with and without the blank after ';') x 7 default-charset settings (none, session, request, both) x entry points (text, text_reader, text_utf8, text_with(X), text_reader_with(X)) [x transport policy in the thorough tier] on one probe body that separates all decoders; a case is non-trivial when some charset a wrong implementation could pick instead (the header's, either default, windows-1252, UTF-8) decodes the probe differently from every accepted output. Part B: every byte string up to the length bound over the 13-byte alphabet (and each of the 3 BOMs followed by every shorter string) x 12 charsets x every subset of inner body offsets as transport read boundaries x {caller buffer 1, 2, 3, 8192, read_to_string}; plus padded bodies around the 8 KiB buffer boundaries; non-trivial when decoding is not the identity on the body (or the body starts with the charset's own BOM). Part C: 5 multi-byte texts in 5 charsets x transport read size {whole, 1, 3} x {text, text_with, text_reader with caller buffers 1/5/8192, text_reader_with} x every body offset at which one transport read first fails with Interrupted (all entry points) or WouldBlock/TimedOut (streaming reader, the caller reads again; offsets >= 3, past the decoder's byte-order-mark look-ahead): same string as without the fault. Part D: json() under every way of making the charset known (label, session default, request default, nothing) incl. an explicit Windows-1252 default; requests that carry a Content-Type of their own (text()/json() bodies, header set by hand or on the session) against unlabelled responses. Cases are distinct by construction (products of duplicate-free lists; label spellings are de-duplicated).",
     );
     rep.set("labels_in_reference_table", n_labels as u64);
     rep.set("probe_body_len", probe.len() as u64);
@@ -1349,9 +1456,10 @@ pub fn c18(ctx: &Ctx) -> Report {
 }
 
 pub fn replay(v: &Value) -> i32 {
-    if v["case"]["part_c"] == true {
+    if v["case"]["part_c"] == true || v["case"]["part_d"] == true {
         let ctx = Ctx::new("C18", Tier::Quick);
         part_c(&ctx);
+        part_d(&ctx);
         let vs = ctx.drain_violations();
         for (v, n) in &vs {
             println!("{}: {} ({n} cases)", v.signature, v.what);
